@@ -123,6 +123,13 @@ class C06(PropCheck):
         out: List[dict] = [{"k": "helpers"}, {"k": "census"}]
         n, m, dmax = (240, 80, 3) if tier == "quick" else (3000, 600, 4)
         progs_ = [self.gen_prog(rng, dmax) for _ in range(n)]
+        from .. import progs as _progs
+
+        for ci in range(len(_progs.CORPUS_ODD)):
+            for mode in ("trickery", "referents", "auto"):
+                for reps in (1, 3):
+                    progs_.append({"k": "prog", "kind": "gen", "corpus_odd": ci, "pseed": 0, "depth": 0, "choices": [1, 0, 1, 1], "mask": [1],
+                                   "reps": reps, "mode": mode, "odd": True, "reach_at": 1, "gc_off": reps == 3})
         chains_ = [self.gen_chain(rng) for _ in range(m)]
         self._batches: Dict[int, List[dict]] = {}
         for b, i in enumerate(range(0, len(progs_) + len(chains_), BATCH)):
